@@ -145,7 +145,15 @@ def events(n, out):
         out.append(("assign", norm(n["left"]), norm(n.get("right_text"))))
         return
     if k == "match":
+        before = len(out)
         events(n.get("on_tree"), out)
+        # `match args.next() { Some(Primitive::Array(arr)) => .., None => .., _ => Err }`: the patterns say which kind of operand is taken
+        if len(out) == before + 1 and out[-1] == ("read", "x"):
+            pats = " ".join(norm(a.get("pat", "")) for a in n.get("arms", []))
+            kinds = {kk for pp, kk in (("Primitive::Array", "a"), ("Primitive::Name", "N"), ("Primitive::String", "s"), ("Primitive::Integer", "n"), ("Primitive::Number", "n"))
+                     if pp in pats}
+            if len(kinds) == 1:
+                out[-1] = ("read", kinds.pop())
         out.append(("match", n))
         return
     if k == "if":
@@ -322,7 +330,8 @@ def writer_table(ast, a):
                         leaf(pattern_ops + look, arm.get("guard"), arm["body"], arm["line"])
                 else:
                     cond = n.get("cond", "")
-                    mm = re.match(r"^\s*let\s+(.*?)\s*=\s*ops\s*\[", cond)
+                    # a look-ahead: `if let [Op::X {..}, ..] = ops[1..]` (or `= *rest` after split_first): a slice pattern of Op variants
+                    mm = re.match(r"^\s*let\s+(.*?)\s*=\s*ops\s*\[", cond) or re.match(r"^\s*let\s+(\[.*?Op\s*::.*\])\s*=\s*[^=]", cond)
                     if mm:
                         leaf(pattern_ops + lookahead_ops(mm.group(1)), None, n["then"], n["line"])
                         if n.get("else"):
